@@ -105,7 +105,12 @@ BOMBS = [
     ("sequence-repeat", "[0]*10**10"), ("sequence-repeat", "'a'*10**10"), ("sequence-repeat", "len('ab'*10**9)"), ("sequence-repeat", "sum([1]*10**9)"),
     ("sequence-repeat", "[[0]*10**5]*10**5"), ("sequence-repeat", "('a'*10**6)*10**6"), ("sequence-repeat", "(1,)*10**10"),
     ("mul-chain", "(2**300000)*(2**300000)*(2**300000)"), ("str-of-big-int", "10**5000"), ("str-of-big-int", "factorial(3000)"),
-    ("nested-max", "max([max([1]*10**7)]*10**7)"), ("many-moderate-ops", "+".join(["max([[0]*10**4]*10**4)"] * 380)),
+    ("nested-max", "max([max([1]*10**7)]*10**7)"),
+    # text that is pathological for pattern matchers / scanners in front of the evaluator (auto-detection, pre-checks)
+    ("pathological-text", "1" * 45 + "x"), ("pathological-text", "1 " * 40 + "x"), ("pathological-text", "1.5" * 30 + "x"), ("pathological-text", "1+" * 40 + "x"),
+    ("pathological-text", "9" * 60 + "**"), ("pathological-text", "1" * 40 + ")"), ("pathological-text", "a" * 60 + "!"), ("pathological-text", "(" * 40 + "1" * 40 + "x"),
+    ("pathological-text", " " * 5000 + "x" + " " * 4000), ("pathological-text", "true" * 500 + "x"), ("pathological-text", "probe(" * 30 + "x"),
+    ("pathological-text", "[" + "1," * 3000 + "x"), ("pathological-text", "'" + "\\" * 2000), ("pathological-text", "1e" + "9" * 50 + "x"), ("many-moderate-ops", "+".join(["max([[0]*10**4]*10**4)"] * 380)),
     ("many-moderate-ops", "+".join(["len([[0]*10**4]*10**4 == [[0]*10**4]*10**4)"] * 10) if False else "+".join(["([[0]*10**4]*10**4 == [[0]*10**4]*10**4)"] * 200)), ("int-digit-limit", "int('9'*4300) + 1"),
 ]
 
@@ -179,14 +184,24 @@ def _py_start(code, offset):
     if not Mon.armed:
         return
     f = sys._getframe(1)
-    node = f.f_locals.get(Mon.argname)
-    Mon.stack.append((id(f), node))
+    # a walker frame = any function of the engine's module that is handed an ast expression node (whatever it is called)
+    node = None
+    loc = f.f_locals
+    for name in code.co_varnames[:code.co_argcount]:
+        v = loc.get(name)
+        if isinstance(v, ast.expr):
+            node = v
+            break
+    if node is not None:
+        Mon.stack.append((id(f), node))
 
 
 def _py_return(code, offset, retval):
-    if not Mon.armed:
+    if not Mon.armed or not Mon.stack:
         return
     fid = id(sys._getframe(1))
+    if not any(e[0] == fid for e in Mon.stack):
+        return              # a helper frame that was not given a node
     # frames above the returning one were unwound by exceptions
     while Mon.stack and Mon.stack[-1][0] != fid:
         Mon.frames.append((Mon.stack.pop()[1], False))
@@ -230,17 +245,19 @@ def install(ctx):
     if Mon.installed:
         return
     Mon.installed = True
-    fn = getattr(mm.Mitochondria, "_compute_node", None)
-    if fn is None:
-        ctx.inconclusive("Mitochondria._compute_node not found: the walker hook cannot be placed")
-    else:
-        Mon.code = fn.__code__
-        Mon.argname = fn.__code__.co_varnames[1] if fn.__code__.co_argcount > 1 else "node"
-        mon = sys.monitoring
-        mon.use_tool_id(3, "rv.c01")
-        mon.register_callback(3, mon.events.PY_START, _py_start)
-        mon.register_callback(3, mon.events.PY_RETURN, _py_return)
-        mon.set_local_events(3, Mon.code, mon.events.PY_START | mon.events.PY_RETURN)
+    mon = sys.monitoring
+    mon.use_tool_id(3, "rv.c01")
+    mon.register_callback(3, mon.events.PY_START, _py_start)
+    mon.register_callback(3, mon.events.PY_RETURN, _py_return)
+    n = 0
+    fns = [v for v in vars(mm).values() if hasattr(v, "__code__") and getattr(v, "__module__", None) == mm.__name__]
+    for cls in [v for v in vars(mm).values() if isinstance(v, type) and v.__module__ == mm.__name__]:
+        fns += [getattr(v, "__func__", v) for v in vars(cls).values() if hasattr(getattr(v, "__func__", v), "__code__")]
+    for fn in fns:
+        if fn.__code__.co_argcount >= 1:
+            mon.set_local_events(3, fn.__code__, mon.events.PY_START | mon.events.PY_RETURN)
+            n += 1
+    ctx.count("engine_functions_instrumented", n)
     sys.addaudithook(_audit)
     mm.ast = AstProxy()
 
